@@ -329,7 +329,7 @@ def gen_package(rng, i, shape=None):
     """shape: funcs (only plain functions) | both | ns (ALL targets are namespace methods, one or
     several namespace types, no exported plain function at all) | ns+helper (namespace methods plus an
     exported function that is no target) | empty (no targets at all)"""
-    shape = shape or rng.choice(["funcs", "funcs", "funcs", "both", "both", "ns", "ns+helper"])
+    shape = shape or rng.choice(["funcs"] * 6 + ["both"] * 4 + ["ns", "ns", "ns+helper", "ns+helper", "empty"])
     pk = {"dir": "imp/p%d" % i, "pkg": rng.choice(["p%d" % i, "tools", "lib", "build"]) if rng.random() < 0.3 else "p%d" % i,
           "funcs": [] if shape in ("ns", "ns+helper", "empty") else gen_funcs(rng, FUNC_NAMES, rng.choice([1, 1, 2, 2, 3])),
           "ns": [], "default": None, "aliases": {}, "shape": shape,
